@@ -4,6 +4,7 @@ From Coq Require Import ZArith NArith String List.
 Import ListNotations.
 From TP Require Import Base.PyVal Base.PyOps Fields.FieldAst Fields.SetChain Fields.Doc Fields.Domain Fields.SetChainProofs.
 From TP Require Import Gen.Guards Fields.GuardProofs.
+From TP Require Import Base.PyOps2 Gen.EnumGuards Ser.EnumGuardProofs.
 Local Open Scope string_scope.
 
 Section C02.
@@ -71,6 +72,17 @@ Section C02.
   Theorem C02_src_tuple_len : forall (items : list field) l,
       Tuple_len_bad re_match (pos_self items None) (PTuple l) = Ok (andb (negb (lenZ items =? lenZ l)%Z) (1 <? lenZ items)%Z).
   Proof. exact (generated_tuple_len re_match). Qed.
+
+  (* Gen/EnumGuards.v is re-generated from typedpy/fields/enum.py (harness/genmods/py2v_enum.py): what
+     Enum.__set__ (with the Enum._validate it calls) does NOW on an Enum over a class E restricted to
+     ANY declared subset of its members, resp. over literal values, is the model's vset, for every value. *)
+  Theorem C02_src_enum_cls : forall cls members all by_value v,
+      members_of_class members all ->
+      Enum__set re_match (enumcls_self cls members all by_value) v = vset re_match e (FEnumCls cls members) v.
+  Proof. exact (generated_enum_set_cls re_match e). Qed.
+  Theorem C02_src_enum_lit : forall values v,
+      Enum__set re_match (enumlit_self values) v = vset re_match e (FEnumLit values) v.
+  Proof. exact (generated_enum_set_lit re_match e). Qed.
 End C02.
 
 Print Assumptions C02_src_number.
@@ -87,6 +99,8 @@ Print Assumptions C02_src_unique_tuple.
 Print Assumptions C02_src_array_positional.
 Print Assumptions C02_src_deque_positional.
 Print Assumptions C02_src_tuple_len.
+Print Assumptions C02_src_enum_cls.
+Print Assumptions C02_src_enum_lit.
 Print Assumptions C02_decision.
 Print Assumptions C02_error_class.
 Print Assumptions C02_agree.
@@ -110,3 +124,21 @@ Example C02_nonvacuous :
   (* over-long for additionalItems=False *)
   vset (fun _ _ => true) [] ex_field (PList [PNum (NInt 4); PStr (s2p "GREEN"); PBool true; PNone]) = Raise ValueError.
 Proof. repeat split; vm_compute; reflexivity. Qed.
+
+(* the hypothesis of C02_src_enum_cls is met by a proper subset of a class, and the generated
+   Enum.__set__ then rejects the NAME of an excluded member while converting the name of a declared one *)
+Example C02_src_enum_nonvacuous :
+  let all := [(s2p "RED", PNum (NInt 1)); (s2p "GREEN", PNum (NInt 2)); (s2p "BLUE", PNum (NInt 3))] in
+  let members := [(s2p "RED", PNum (NInt 1)); (s2p "BLUE", PNum (NInt 3))] in
+  members_of_class members all /\
+  Enum__set (fun _ _ => true) (enumcls_self (s2p "Color") members all false) (PStr (s2p "GREEN")) = Raise ValueError /\
+  Enum__set (fun _ _ => true) (enumcls_self (s2p "Color") members all false) (PStr (s2p "BLUE"))
+    = Ok (PEnum (s2p "Color") (s2p "BLUE") (PNum (NInt 3))).
+Proof.
+  cbv zeta. split; [|split; vm_compute; reflexivity].
+  intros n x. cbn [alist_get].
+  destruct (pystr_eqb (s2p "RED") n) eqn:H1; [intros H; exact H|].
+  destruct (pystr_eqb (s2p "BLUE") n) eqn:H2; [|discriminate].
+  intros H. destruct (pystr_eqb (s2p "GREEN") n) eqn:H3; [|exact H].
+  apply pystr_eqb_spec in H2. apply pystr_eqb_spec in H3. subst n. discriminate H3.
+Qed.
